@@ -82,12 +82,25 @@ pub mod bitcoin {
     use vstd::prelude::*;
     verus!{
     #[derive(Clone, Copy, PartialEq, Eq)]
-    pub struct PublicKey { pub compressed: bool, pub point: u64 }
+    pub struct PublicKey { pub compressed: bool, pub inner: SecpPublicKey }
+    // secp256k1::PublicKey: `serialize()` is ALWAYS the 33-byte compressed SEC1 form, whatever bitcoin::PublicKey::compressed says
+    #[derive(Clone, Copy, PartialEq, Eq)]
+    pub struct SecpPublicKey { pub point: u64 }
+    impl SecpPublicKey {
+        pub uninterp spec fn ser33(&self) -> Seq<u8>;
+        #[verifier::external_body]
+        pub fn serialize(&self) -> (r: [u8; 33]) ensures r@ == self.ser33() { unimplemented!() }
+    }
     impl PublicKey {
+        // consensus serialization of the key AS WRITTEN: 33 bytes if compressed, 65 bytes otherwise
         pub uninterp spec fn ser(&self) -> Seq<u8>;
         #[verifier::external_body]
         pub fn to_bytes(&self) -> (r: Vec<u8>) ensures r@ == self.ser() { unimplemented!() }
     }
+    // the only relation between the two: a compressed key's bytes ARE the secp serialization; an uncompressed key's are 65 bytes
+    pub broadcast proof fn axiom_pubkey_ser(k: PublicKey)
+        ensures k.compressed ==> #[trigger] k.ser() == k.inner.ser33(), !k.compressed ==> k.ser().len() == 65, k.inner.ser33().len() == 33,
+    { admit(); }
     pub mod ecdsa {
         use vstd::prelude::*;
         verus!{
@@ -425,6 +438,8 @@ def emit_base(vf, script_context):
              "are mutually inverse on minimal encodings (Kani unit k04_pushint covers the number pushes)")
     vf.trust("varint_len (external_body) == CompactSize length", "proved on the real function by Kani, unit k09_weights (c09_varint_len, complete)")
     vf.trust("trait ToPublicKey (spec_to_public_key / spec_to_x_only_pubkey)", "key conversion is a function of the key")
+    vf.trust("bitcoin::PublicKey { compressed, inner: SecpPublicKey } with ser() (as written: 33 / 65 bytes) and inner.serialize() == ser33() (always compressed); axiom_pubkey_ser (admit)",
+             "rust-bitcoin / secp256k1 documentation: PublicKey::to_bytes honours the compressed flag, secp256k1::PublicKey::serialize is always the 33-byte form; present so that a satisfier that reveals `inner.serialize()` is judged")
 
 
 SCRIPT_CONTEXT = r"""
